@@ -56,6 +56,7 @@ def run(report, tier, seed, driver, proofs_ok):
     )
     cases = [(t, e) for t, e in CORPUS] + [tmpl.gen_template(rng, max_depth=3) for _ in range(n)]
     second = []  # (template, extra, model op for the second pass, implementation stable?)
+    unstable = []  # first passes that are not fixed points, with the model op of the first pass
     for t, extra in cases:
         try:
             m = tmpl.parse(t)
@@ -97,8 +98,17 @@ def run(report, tier, seed, driver, proofs_ok):
                     sub = "boolean-looking-text-lowercased-on-second-pass"
                 elif isinstance(a, str) and "{{resolve:ssm:" in a:
                     sub = "ssm-reference-resolved-on-second-pass"
-            report.violation("oracle", what + ":" + sub, op={"template": t, "extra": extra}, impl={"path": diff[0] if diff else None, "first": diff[1] if diff else None, "second": diff[2] if diff else None},
-                             oracle="m.resolve(p).resolve(p) == m.resolve(p)", via=via_of(t, extra, diff))
+            unstable.append((t, extra, what + ":" + sub, diff, tmpl.model_op(m, extra), untyped(d1)))
+    # an unstable first pass is the recorded finding only when the model (the specified semantics of each function)
+    # produces the same first pass: text that a function is *specified* to return as is. A first pass that differs from
+    # the model's is something else (e.g. a placeholder value no longer normalised) and is reported on its own.
+    firsts = driver.run([op for _, _, _, _, op, _ in unstable]) if unstable else []
+    for (t, extra, what, diff, _, d1), out in zip(unstable, firsts):
+        via = via_of(t, extra, diff)
+        if not out.get("outside_domain") and "resources" in out and untyped(common.canon(common.dec(out["resources"]))) != d1:
+            via = "first-pass-differs-from-model"
+        report.violation("oracle", what, op={"template": t, "extra": extra}, impl={"path": diff[0] if diff else None, "first": diff[1] if diff else None, "second": diff[2] if diff else None},
+                         oracle="m.resolve(p).resolve(p) == m.resolve(p)", via=via)
     # correspondence of the second pass: the model, run on the dump of the resolved model, is stable exactly when the
     # implementation is (C03_idem is a statement about the model's stable values)
     outs = driver.run([op for _, _, op, _, _ in second])
